@@ -577,6 +577,12 @@ def run_property(prop, tier, seed, replay, t0):
     known = load_known()
     known_obl = {k["obligation"]: k for k in known.get("findings", []) if k["property"] == prop}
     new_fail = [f for f in failures if f["obligation"] not in known_obl]
+    # counts: a failing lemma-region obligation is not discharged; an obligation listed as a KNOWN finding is reported as such
+    # (coverage.known_failing_obligations) and is neither counted as an obligation of this run nor as discharged
+    discharged -= len([f for f in failures if f["item"] == "(lemma/spec region)"])
+    known_fail = [f for f in failures if f["obligation"] in known_obl]
+    obligations -= len(known_fail)
+    discharged = max(min(discharged, obligations), 0)
     replayed = []
     for f in failures:
         if f["obligation"] in known_obl:
@@ -619,12 +625,13 @@ def run_property(prop, tier, seed, replay, t0):
         "bounded_stand_ins": bounded,
         "seed_retries": {u: analyses[u].get("seed_retries", 0) for u in units},
         "known_findings_replayed": replayed,
+        "known_failing_obligations": [f["obligation"] for f in known_fail],
         "thorough_seed_stability": stability,
         "thorough_detection_selftest": selftest,
     }
     ev["coverage"] = cov
     ev["assumptions"] = cfg.get("assumptions", []) + ["every item listed in coverage.trusted_base (mechanical scan of the generated unit)",
-                                                       "usize is 64 bit; Verus + Z3 are sound; the extractor's rules N1..N16 preserve semantics (DESIGN §3)"]
+                                                       "usize is 64 bit; Verus + Z3 are sound; the extractor's rules N1..N27 preserve semantics (DESIGN §0.4, §3; no translation validation is built)"]
     ev["wall_s"] = time.time() - t0
 
     if replay:
